@@ -61,7 +61,9 @@ def gen_cases(rng, n, profile):
                 "bsizes": rng.choice([[1], [1, 1, 2, 3], [2], [1, 2], [3, 1]]),
                 "p_close": {"c16": 0.12, "c04": 0.05}.get(profile, 0.02),
                 "p_extfail": {"c04": 0.06}.get(profile, 0.01),
-                "p_call2": {"c16": 0.1}.get(profile, 0.02)}
+                "p_call2": {"c16": 0.1}.get(profile, 0.02),
+                "managed": rng.random() < 0.5,          # calls made inside `with Parallel(...)`
+                "p_abort_race": 0.5}
         cases.append(case)
     return cases
 
@@ -75,7 +77,8 @@ def timeout_cases(rng, n):
         calls = [["call", n_jobs, rng.choice([1, 2, "all"]), mode, rng.randint(1, 6), None, [], 0.3],
                  ["call", n_jobs, 2, mode, rng.randint(0, 5), None, [], None]]
         cases.append({"id": "t%d" % i, "seed": rng.randint(0, 10 ** 9), "calls": calls, "max_events": 80,
-                      "no_cb_first_call": True, "p_close": 0.0, "p_call2": 0.0, "bsizes": [1, 2]})
+                      "stall_after": rng.choice([0, 0, 1, 2, 3]), "p_close": 0.0, "p_call2": 0.0, "bsizes": [1, 2],
+                      "managed": rng.random() < 0.5})
     return cases
 
 
@@ -268,6 +271,32 @@ def oracle(run, profile_all=True):
                 bad.append(("C04", "TimeoutError without a timeout"))
             if kind in ("attr",) or kind not in ("task", "iter", "timeout", "runtime"):
                 bad.append(("C04", "call died with an internal error: %s" % out))
+        if tmo is not None:
+            for e, obs_k, sn in zip(c["events"], [run["obs"][c["start"] + i] for i in range(len(c["events"]))], c["snaps"]):
+                if e[0] == "timeout" and not any(o[0] == "raised" for o in obs_k) and sn.get("pending_pull"):
+                    bad.append(("C04", "the caller waited 6 s (timeout=%s) for a batch that never completes and no "
+                                       "TimeoutError was raised" % tmo))
+        if mode == "unordered":
+            # results come batch by batch in the order in which the completions were registered
+            order = []
+            subs = c["snaps"][-1]["submitted"] if c["snaps"] else []
+            ids = c["snaps"][-1].get("trk_ids", []) if c["snaps"] else []
+            tasks_of = dict(zip(ids, subs))
+            for e in c["events"]:
+                if e[0] == "cb" and len(e) > 3 and e[3] is None and e[1] in tasks_of:
+                    order.extend(tasks_of[e[1]])
+            # batches whose completion was dropped (abort) never show up; delivered must be a prefix-compatible subsequence
+            pos = 0
+            okseq = True
+            for v in vals:
+                while pos < len(order) and order[pos] != v:
+                    pos += 1
+                if pos == len(order):
+                    okseq = False
+                    break
+                pos += 1
+            if not okseq:
+                bad.append(("C16", "unordered generator did not deliver in completion order: delivered %s, completions %s" % (vals, order)))
         for o in c.get("call2", []):
             if o != ["raised", "runtime", 0]:
                 bad.append(("C16", "calling a running Parallel gave %s instead of RuntimeError" % o))
@@ -398,12 +427,19 @@ def correspondence(ctx, profile, n_cases, extra_cases=()):
 
 
 def strip_events(events):
+    """event list for a replay: a completion that raced with a close (recorded as ['close', tid] followed by
+    ['cb', tid, ..]) is folded back into the close event"""
     out = []
+    skip = None
     for e in events:
         if e[0] == "cb":
+            if skip is not None and e[1] == skip:
+                skip = None
+                continue
             out.append(e[:3])
         else:
             out.append(e)
+            skip = e[1] if e[0] in ("close", "drop") and len(e) > 1 else None
     return out
 
 
